@@ -14,7 +14,9 @@ VERIF = os.path.abspath(os.path.join(os.path.dirname(os.path.abspath(__file__)),
 REPO = os.environ.get("VERIF_REPO", "/repo")
 BUILD = os.path.join(VERIF, "build")
 CONTRACTS = os.path.join(VERIF, "contracts")
-EVID = os.path.join(VERIF, "evidence")
+# evidence/ is only written for runs against the real /repo; runs against a scratch copy (VERIF_REPO,
+# used for seeded changes) write to build/evidence-scratch so that committed evidence is never clobbered
+EVID = os.path.join(VERIF, "evidence") if os.path.realpath(REPO) == "/repo" else os.path.join(BUILD, "evidence-scratch")
 REPLAYS = os.path.join(VERIF, "replays")
 
 VERIFICATION_FAILURE = (
@@ -115,7 +117,8 @@ def run_verus(path, extra=(), multiple_errors=20, rlimit=None, timeout=1800):
         j = json.loads(p.stdout[p.stdout.index("{"):])
     except Exception:
         j = None
-    res = {"json": j, "diags": diags, "wall_s": wall, "cmd": " ".join(cmd), "returncode": p.returncode,
+    shown = " ".join("build/<run>/" + os.path.basename(c) if c == path else c for c in cmd)
+    res = {"json": j, "diags": diags, "wall_s": wall, "cmd": shown, "returncode": p.returncode,
            "stderr_tail": p.stderr[-4000:] if j is None else "", "cache_hit": False}
     with open(cpath + ".tmp", "w") as f:
         json.dump(res, f)
@@ -403,7 +406,7 @@ def decide(pid, pcfg, cfg, tier, seed, workdir, evidence):
         "discharged": discharged,
         "obligation_counting_rule": "tagged contract clauses (requires/ensures/invariants) + functions whose built-in "
                                     "obligations (overflow, index, slice, callee preconditions, termination) count for this property + lemmas",
-        "checker_cmd": res["cmd"].replace(workdir, "build/<run>"),
+        "checker_cmd": "extract/extract.py --repo /repo --contracts contracts --out build/<run>/ppp_verus.rs --vacuity && " + res["cmd"],
         "back_end": f"Verus {verus_version()} / Z3 (bundled)",
         "verus_verified_total": vr.get("verified"),
         "verus_errors_total": vr.get("errors"),
